@@ -77,6 +77,25 @@ Theorem C06_seq_next : forall last, last < 0x100000000 -> forall init, seq_ok in
 Proof. exact next_is_succ. Qed.
 Print Assumptions C06_seq_next.
 
+(* over ANY number k of consecutive requests the counter walks the cycle 1..2^32-1:
+   closed form, no number used twice within 2^32-1 consecutive requests (so a BMC's
+   replay window never sees a repeat), never 0, and period exactly 2^32-1 *)
+Theorem C06_seq_closed_form : forall k n, 1 <= n -> n < 0x100000000 ->
+  iter_incr k n = (n - 1 + N.of_nat k) mod 0xffffffff + 1.
+Proof. exact iter_incr_closed. Qed.
+Print Assumptions C06_seq_closed_form.
+
+Theorem C06_seq_no_repeat : forall n j k, 1 <= n -> n < 0x100000000 ->
+  (j < k)%nat -> N.of_nat k - N.of_nat j < 0xffffffff ->
+  iter_incr j n <> iter_incr k n /\ iter_incr k n <> 0.
+Proof. exact iter_incr_distinct. Qed.
+Print Assumptions C06_seq_no_repeat.
+
+Theorem C06_seq_period : forall n k, 1 <= n -> n < 0x100000000 -> N.of_nat k = 0xffffffff ->
+  iter_incr k n = n.
+Proof. exact iter_incr_period. Qed.
+Print Assumptions C06_seq_period.
+
 (* any number of requests: each accepted, each advancing both sides by one (induction) *)
 Theorem C06_requests : forall md5, (forall x, length (md5 x) = 16%nat) ->
   forall c p a pw, b_pw p = pw ->
